@@ -62,7 +62,11 @@ func (b *headBlocks) SignedBeaconBlock(context.Context, *api.SignedBeaconBlockOp
 	if !b.live || b.in.Kind == "fetcherr" {
 		return nil, errors.New("scripted block failure")
 	}
-	in := b.in
+	return &api.Response[*spec.VersionedSignedBeaconBlock]{Data: makeBlock(b.in), Metadata: map[string]any{}}, nil
+}
+
+// makeBlock builds the block of the shape given by the version and nil-ness fields of in.
+func makeBlock(in *HeadIn) *spec.VersionedSignedBeaconBlock {
 	blk := &spec.VersionedSignedBeaconBlock{Version: spec.DataVersion(in.Version)}
 	state := phase0.Root{1}
 	if in.StateZero {
@@ -117,7 +121,19 @@ func (b *headBlocks) SignedBeaconBlock(context.Context, *api.SignedBeaconBlockOp
 			}
 		}
 	}
-	return &api.Response[*spec.VersionedSignedBeaconBlock]{Data: blk, Metadata: map[string]any{}}, nil
+	return blk
+}
+
+// headTerm reads the execution head of the cache as an option term.
+func headTerm(ctx context.Context, svc *standardcache.Service) (string, uint64) {
+	hash, height := svc.ExecutionChainHead(ctx)
+	switch {
+	case hash == (phase0.Hash32{}) && height == 0:
+		return None(), height
+	case hash == execHash(height):
+		return Some(N(height)), height
+	}
+	return Some(N(1 << 62)), height // an execution head nobody scripted
 }
 
 type noHeaders struct{}
@@ -167,15 +183,8 @@ func runHead(t *testing.T, in *HeadIn) result {
 	if panicked {
 		res.obsTerm = App("OHead", panicT)
 	} else {
-		hash, height := svc.ExecutionChainHead(ctx)
-		switch {
-		case hash == (phase0.Hash32{}) && height == 0:
-			res.obsTerm = App("OHead", okT(None()))
-		case hash == execHash(height):
-			res.obsTerm = App("OHead", okT(Some(N(height))))
-		default:
-			res.obsTerm = App("OHead", okT(Some(N(1<<62)))) // an execution head nobody scripted
-		}
+		term, height := headTerm(ctx, svc)
+		res.obsTerm = App("OHead", okT(term))
 		res.obs.Detail = map[string]any{"height": height}
 	}
 	switch in.Kind {
